@@ -311,6 +311,10 @@ def nest_formula(shape, d):
         return '="' + 'ab_' * d + '"&A1'
     if shape == 'long-title-ref':
         return '=' + 'T' * (d + 1) + '!A1'
+    if shape == 'unclosed-brackets':
+        return '=' + '(' * d + 'A1+1'
+    if shape == 'unclosed-mixed':
+        return '=' + '(A1+' * d + '1'
     if shape == 'unclosed':
         return '=' + 'SUM(' * d + '1'
     if shape == 'overclosed':
@@ -319,7 +323,7 @@ def nest_formula(shape, d):
 
 
 SHAPES = ['brackets', 'brackets-ops', 'if', 'if-else', 'sum', 'round-args', 'signs', 'amp', 'plus', 'iferror', 'unclosed', 'overclosed',
-          'long-number', 'long-decimal', 'long-name', 'long-call', 'long-text', 'long-title-ref']
+          'unclosed-brackets', 'unclosed-mixed', 'long-number', 'long-decimal', 'long-name', 'long-call', 'long-text', 'long-title-ref']
 
 
 def run_nesting(cases, stats):
